@@ -366,3 +366,18 @@ pub(crate) fn note_transform_values(v: &[i64]) {
 pub fn take_max_transform_value() -> u64 {
     MAX_TRANSFORM_VALUE.swap(0, std::sync::atomic::Ordering::Relaxed)
 }
+
+/// log of the coefficient-context bookkeeping of the last decoded VP8 frame(s): per macroblock
+/// `[1, mbx, mby, has_y2, skipped]`, per `read_coefficients` call `[2, plane, complexity, n]`
+static CTX_LOG: std::sync::Mutex<Vec<u32>> = std::sync::Mutex::new(Vec::new());
+pub(crate) fn note_mb(mbx: usize, mby: usize, has_y2: bool, skipped: bool) {
+    let mut l = CTX_LOG.lock().unwrap();
+    l.extend_from_slice(&[1, mbx as u32, mby as u32, u32::from(has_y2), u32::from(skipped)]);
+}
+pub(crate) fn note_ctx_call(plane: usize, complexity: usize, n: bool) {
+    let mut l = CTX_LOG.lock().unwrap();
+    l.extend_from_slice(&[2, plane as u32, complexity as u32, u32::from(n)]);
+}
+pub fn take_ctx_log() -> Vec<u32> {
+    std::mem::take(&mut *CTX_LOG.lock().unwrap())
+}
